@@ -162,6 +162,17 @@ objs=[CellVolume(m)*v*dx + Circumradius(m)*v*ds + FacetArea(m)*v*ds]'''),
     _c("vertex_scheme_tri", '''
 m=mesh("triangle"); V=space(m,"P",1); u,v=TrialFunction(V),TestFunction(V)
 objs=[u*v*dx(scheme="vertex",degree=1)]'''),
+    _c("expr_literal_components", '''
+m=mesh("triangle"); V=space(m,"P",2); f=Coefficient(V); k=Constant(m); x=SpatialCoordinate(m)
+objs=[(as_vector((f, k*f, 1.0)), np.array([[0.25,0.25],[0.5,0.125]])), (grad(x), np.array([[0.125,0.5]])), (Identity(2)*f + as_matrix(((0.0,2.0),(x[0],0.5))), np.array([[0.25,0.5]]))]'''),
+    _c("expr_literal_rank1", '''
+m=mesh("tetrahedron"); V=space(m,"P",1); u=TrialFunction(V); x=SpatialCoordinate(m)
+objs=[(as_vector((u, 2.0*u, u.dx(1))), np.array([[0.25,0.25,0.125]])), (grad(x)[0,:]*u, np.array([[0.125,0.5,0.25]]))]'''),
+    # parent mesh and sub-mesh of codimension 0 in one integrand (test_submesh.py style)
+    _c("submesh_codim0_two_coordinates", '''
+m=mesh("triangle"); ms=mesh("triangle"); V=space(m,"P",1); Vs=space(ms,"P",1)
+u=TrialFunction(V); v=TestFunction(Vs); x=SpatialCoordinate(m); y=SpatialCoordinate(ms); f=Coefficient(Vs)
+objs=[(x[0] + y[0]*y[1])*inner(u,v)*dx(domain=m) + f*inner(grad(u),grad(v))*dx(domain=m)]'''),
     _c("two_forms_module", '''
 m=mesh("triangle"); V=space(m,"P",1); u,v=TrialFunction(V),TestFunction(V); f=Coefficient(V)
 objs=[inner(grad(u),grad(v))*dx, f*v*dx, f*f*dx]'''),
